@@ -142,10 +142,55 @@ func (c *Ctx) queryMode(asserts []string, extra []string, mode int) string {
 		idxs = append(idxs, i)
 	}
 	sort.Ints(idxs)
+	// prelude lines are included only when a symbol they declare/define is needed
+	declSym := func(line string) string {
+		for _, pre := range []string{"(declare-fun ", "(define-fun "} {
+			if strings.HasPrefix(line, pre) {
+				rest := line[len(pre):]
+				if i := strings.IndexAny(rest, " ("); i > 0 {
+					return rest[:i]
+				}
+			}
+		}
+		return ""
+	}
+	preSyms := map[string][]int{} // symbol -> prelude lines that declare or axiomatise it
+	lastSym := ""
+	for i, p := range c.prelude {
+		if sym := declSym(p); sym != "" {
+			preSyms[sym] = append(preSyms[sym], i)
+			lastSym = sym
+		} else if strings.HasPrefix(p, "(assert") && lastSym != "" {
+			// an axiom belongs to the most recently declared symbol
+			preSyms[lastSym] = append(preSyms[lastSym], i)
+		}
+	}
+	needPre := map[int]bool{}
+	var work []string
+	for _, i := range idxs {
+		work = append(work, c.defs[i].line)
+	}
+	work = append(work, asserts...)
+	work = append(work, extra...)
+	for len(work) > 0 {
+		s := work[len(work)-1]
+		work = work[:len(work)-1]
+		for _, t := range tokens(s) {
+			for _, i := range preSyms[t] {
+				if !needPre[i] {
+					needPre[i] = true
+					work = append(work, c.prelude[i])
+				}
+			}
+		}
+	}
 	var b strings.Builder
 	b.WriteString("(set-option :produce-models true)\n(set-logic ALL)\n")
 	b.WriteString("(declare-sort Str 0)\n")
-	for _, p := range c.prelude {
+	for i, p := range c.prelude {
+		if !needPre[i] {
+			continue
+		}
 		if mode >= 1 {
 			if alt, ok := c.opaqueAlt[p]; ok {
 				p = alt
